@@ -4161,6 +4161,10 @@ class C14(Oracle):
             k += 1
             name = names[k % len(names)]
             params = corr_win.valid_params(rng, name) if rng.random() < 0.8 else corr_win.near_valid_params(rng, name)
+            if name == 'crossing' and 'object_type' in params and rng.random() < 0.3:
+                # rivers of obstacles that never move (the chain has no `move_obstacles`), episode ended by
+                # touching one: the openings are the only way across
+                params = dict(params, object_type='MovingObstacle')
             c = {'kind': 'reset', 'name': name, 'params': params, 'seed': rng.randrange(2**31)}
             if name in ('rooms', 'crossing', 'keydoor', 'empty', 'teleport', 'memory'):
                 # cheap to search: many draws of the same parameter set (a layout that is unwinnable for one
@@ -4251,7 +4255,11 @@ class C14(Oracle):
                 return out  # validity of parameters is C13's business
             where = f'{name} {c["params"]} seed={c["seed"]}'
             chain, term, goal_fn = corr_win.real_setup(name)
+            static_obstacles = name == 'crossing' and c['params'].get('object_type') == 'MovingObstacle'
+            if static_obstacles:
+                term = tf.factory('reduce_any', terminating_functions=[tf.factory('reach_exit'), tf.factory('bump_moving_obstacle')])
         else:
+            static_obstacles = False
             s = state_from_str(c['state'])
             chain = trf.factory('chain', transition_functions=[trf.factory(TRANS_NAMES[i]) for i in c['atoms']])
             reach = tf.factory('reach_exit')
@@ -4262,7 +4270,7 @@ class C14(Oracle):
             name = 'memory_rooms' if c['goal'] == 'm' else ('dynamic_obstacles' if 3 in c['atoms'] else 'state')
             _, _, goal_fn = corr_win.real_setup('memory' if c['goal'] == 'm' else 'empty')
             where = f'state {c["state"]}'
-        stochastic = any(isinstance(s.grid[p], MovingObstacle) for p in s.grid.area.positions())
+        stochastic = not static_obstacles and any(isinstance(s.grid[p], MovingObstacle) for p in s.grid.area.positions())
         if stochastic:
             # cheap randomised search first; exhaustive exists-draws search only on small grids
             found = corr_win.search_with_draws('dynamic_obstacles', s, random.Random(c.get('seed', 0)), tries=40)
